@@ -5,6 +5,11 @@ cd "$(dirname "$0")"
 export GOFLAGS=-mod=mod GOPROXY=off
 rm -rf build
 mkdir -p build
-(cd coq && find theories -name '*.vo' -o -name '*.glob' -o -name '*.vok' -o -name '*.vos' -o -name '.*.aux' | xargs rm -f; rm -f _CoqProject Makefile Makefile.conf .Makefile.d; ./mk.sh) > build/setup-coq.log 2>&1 || { tail -30 build/setup-coq.log; echo "coq build failed"; exit 1; }
+(cd coq && find theories -name '*.vo' -o -name '*.glob' -o -name '*.vok' -o -name '*.vos' -o -name '.*.aux' | xargs rm -f; rm -f _CoqProject Makefile Makefile.conf .Makefile.d; ./mk.sh -k) > build/setup-coq.log 2>&1 || { tail -5 build/setup-coq.log; echo "coq build: some targets failed (each check rebuilds and reports its own targets)"; }
 (cd /repo && go build ./... ) > build/setup-go.log 2>&1 || { tail -30 build/setup-go.log; echo "go warm-up failed (continuing)"; }
+python3 - <<'PY' >> build/setup-go.log 2>&1 || true
+import sys; sys.path.insert(0, "lib")
+import txnlab
+print(txnlab.build_driver())
+PY
 echo setup ok
